@@ -342,8 +342,12 @@ Fixpoint get_param (k : bytes) (ps : params) : option (option bytes) :=
   | (k', v') :: ps' => if beqb k k' then Some v' else get_param k ps'
   end.
 
-Definition last_wordc (s : bytes) (d : bool) : bool :=
-  match rev s with c :: _ => is_wordc c | [] => d end.
+(* is the last byte of s a \w byte (d for the empty string); linear *)
+Fixpoint last_wordc (s : bytes) (d : bool) : bool :=
+  match s with
+  | [] => d
+  | c :: s' => match s' with [] => is_wordc c | _ => last_wordc s' d end
+  end.
 
 (* prevw: the byte before the current position is a \w byte (false at the start) *)
 Fixpoint gather (fuel : nat) (prevw : bool) (s : bytes) (acc : params) : params :=
